@@ -88,6 +88,10 @@ func (r *getRequest) executeHandler() {
 
 		switch e := v.(type) {
 		case *Error:
+			if e == nil {
+				// A nil *Error is not an error to respond with
+				e = InternalError(errors.New("panic with nil *Error"))
+			}
 			if !r.replied {
 				r.Error(e)
 				// Return without logging as panicing with a *Error is considered
